@@ -3,6 +3,7 @@ import itertools
 
 import bibtexparser
 from bibtexparser.splitter import Splitter
+from bibtexparser.model import Field
 
 from .. import bigdocs, dialect, spaces
 from ..engine import chunks, seq_iter, seq_shards
@@ -61,6 +62,7 @@ VALUES = [
     '"a {b {c} "d, e" f} g"',  # quotes and a comma inside braces two deep inside quotes
     '"x" # "a=b, c" # {d=e, f}',  # = and , inside later parts of a concatenation
     "{a\rb\x0cc\u2028d\x0be\xa0}",  # characters str.splitlines / str.isspace treat specially, inside a value
+    '{a} # "b, c" # {d}',  # braces first, then a quoted part holding a comma
     "{mail a@b\n{c} @\x0c{d}}",  # an at-sign and a word, then whitespace other than blank / tab, then a brace: no block start
 ]
 VALUES_SMALL = [VALUES[i] for i in (0, 2, 3, 8, 9, 15, 17, 18, 19)]
@@ -282,6 +284,10 @@ def judge(text, expected, acc, level, case=None):
     # in whatever scanner state it reaches, must leave nothing behind
     try:
         Splitter(text[: (2 * len(text)) // 3]).split()
+        # ... and an earlier parse whose entries (every syntactic form) the caller then edited
+        for e_ in bibtexparser.parse_string("@hist{h1}\n@hist{h2,}\n@hist{h3, a = {1}}\n@string{hs = {v}}", parse_stack=[]).entries:
+            e_.set_field(Field("added_by_the_caller", "{later}"))
+            e_.fields.append(Field("appended_by_the_caller", "{later}"))
     except Exception:
         pass
     for route in ("split", "parse_string"):
